@@ -70,10 +70,11 @@ def replay_vectors(ctx, recs, vals, worst):
     return len(recs)
 
 
-def report_selector(ctx, worst, where):
+def report_selector(ctx, worst):
+    """One violation per kind of mismatch, with the smallest specification showing it."""
     for kind, (size, d) in sorted(worst.best.items()):
         ctx.violation("Selector:%s:%s" % (kind, sl.render(d["ast"])),
-                      dict(d, where=where, cases_of_this_kind=worst.count[kind], rendered=sl.render(d["ast"])))
+                      dict(d, cases_of_this_kind=worst.count[kind], rendered=sl.render(d["ast"])))
 
 
 def run_filter(ast, flow, how):
@@ -83,31 +84,36 @@ def run_filter(ast, flow, how):
         flt = lf.Filter(sl.build(ast["x"]))         # Filter converts a non-Selector itself
     else:
         flt = lf.Filter(obj)
-    out, raised = [], False
+    out, raised = [], ""
     if how == "fill":
         sink = lf.StoreFilled()
         try:
             for v in flow:
                 flt.fill_into(sink, v)
-        except Exception:   # noqa
-            raised = True
+        except Exception as exc:   # noqa
+            raised = type(exc).__name__
         out = list(sink.group)
     else:
         try:
             for v in flt.run(iter(flow)):
                 out.append(v)
-        except Exception:   # noqa
-            raised = True
+        except Exception as exc:   # noqa
+            raised = type(exc).__name__
     return out, raised
 
 
-def replay_filters(ctx, recs):
+def replay_filters(ctx, recs, worst):
     for rec in recs:
         ast = rec["ast"]
         flow = [sl.dec_val(v) for v in rec["flow"]]
         exp = [sl.sig(sl.dec_val(v)) for v in rec["out"]]
         for how in ("run", "fill", "raw"):
-            out, raised = run_filter(ast, flow, how)
+            try:
+                out, raised = run_filter(ast, flow, how)
+            except Exception as exc:   # noqa
+                worst.add("constructor raised %s" % type(exc).__name__, (sl.size(ast), jkey(ast)),
+                          {"ast": ast, "exception": repr(exc), "where": "Filter"})
+                continue
             got = [sl.sig(v) for v in out]
             if rec["raised"]:
                 ok = got[:len(exp)] == exp       # what follows the exception is not fixed by the statement
@@ -116,14 +122,16 @@ def replay_filters(ctx, recs):
             # the values that pass are the filled objects themselves
             ok = ok and all(any(o is v for v in flow) for o in out)
             if not ok:
-                ctx.violation("Filter.%s:%s:n=%d" % ("fill_into" if how == "fill" else "run", sl.render(ast), len(flow)),
-                              {"ast": ast, "flow": [repr(v) for v in flow], "expected": exp,
-                               "expected_raised": rec["raised"], "observed": got, "observed_raised": raised})
+                kind = ("raised %s" % raised) if (raised and not rec["raised"]) else "Filter keeps other values"
+                worst.add(kind, (sl.size(ast), jkey(ast), len(flow)),
+                          {"ast": ast, "flow": [repr(v) for v in flow], "expected": exp,
+                           "expected_raised": rec["raised"], "observed": got, "observed_raised": raised,
+                           "where": "Filter.fill_into" if how == "fill" else "Filter.run"})
         ctx.case(["filter", ast, rec["flow"]], nontrivial=len(flow) > 0)
 
 
 # ------------------------------------------------------------------ selectors: C2S
-def record_selectors(ctx, rnd, n):
+def record_selectors(ctx, rnd, n, worst):
     import lena.flow as lf
     F = sl.funcs()
     trace = []
@@ -133,7 +141,9 @@ def record_selectors(ctx, rnd, n):
         try:
             obj = sl.build(ast, rnd.randint(0, 2), rnd.random() < 0.5, F)
         except Exception as exc:   # noqa
-            ctx.violation("Selector:constructor raised %s:%s" % (type(exc).__name__, sl.render(ast)), {"ast": ast})
+            worst.add("constructor raised %s" % type(exc).__name__, (10 ** 6 + sl.size(ast), jkey(ast)),
+                      {"ast": ast, "exception": repr(exc), "where": "random specification"})
+            n -= 1
             continue
         vals = []
         for _ in range(40):
@@ -144,14 +154,14 @@ def record_selectors(ctx, rnd, n):
             if len(vals) == 4:
                 break
         if rnd.random() < 0.25 and vals:
-            out, raised = [], False
+            out, exc = [], ""
             try:
                 for v in lf.Filter(obj).run(iter(vals)):
                     out.append(v)
-            except Exception:   # noqa
-                raised = True
+            except Exception as e:   # noqa
+                exc = type(e).__name__
             trace.append({"op": "filter", "ast": ast, "flow": [sl.enc_val(v) for v in vals],
-                          "out": [sl.enc_val(v) for v in out], "raised": raised})
+                          "out": [sl.enc_val(v) for v in out], "raised": bool(exc), "exc": exc})
         else:
             for v in vals[:2]:
                 got = sl.evaluate(obj, v)
@@ -159,30 +169,41 @@ def record_selectors(ctx, rnd, n):
     return trace
 
 
-def check_trace(ctx, module, trace, classify, same, max_rounds=6):
-    """Validate *trace*; a rejected record is reported (key from classify), then it and the records
-    with the same signature are set aside and validation goes on, so that one defect does not
+def trace_kind(r):
+    if r.get("exc"):
+        return "raised %s" % r["exc"]
+    if r["op"] == "sel":
+        return "recorded result %s rejected" % r["res"]
+    return "Filter keeps other values"
+
+
+def check_sel_trace(ctx, trace, worst, max_rounds=6):
+    """Validate recorded selector runs.  A rejected record goes to the aggregator; it and the later
+    records of the same kind are set aside and validation continues, so that one defect does not
     hide the rest of the batch."""
     todo = list(trace)
-    accepted_all = []
+    accepted = []
     for _ in range(max_rounds):
         if not todo:
             break
-        acc = ctx.validate(module, module + ".cfg", todo, label="trace")
+        acc = ctx.validate("Trace_Selectors", "Trace_Selectors.cfg", todo, label="trace")
         ctx.traces += acc
-        accepted_all.extend(todo[:acc])
+        accepted.extend(todo[:acc])
         if acc >= len(todo):
-            todo = []
             break
         bad = todo[acc]
-        ctx.violation(classify(bad), {"record": bad, "index_in_batch": acc})
-        todo = [r for r in todo[acc + 1:] if not same(bad, r)]
+        kind = trace_kind(bad)
+        # witnesses from the exhaustive universe are preferred: recorded ones get a large size
+        worst.add(kind, (10 ** 6 + sl.size(bad["ast"]), jkey(bad["ast"])),
+                  {"ast": bad["ast"], "record": {k: v for k, v in bad.items() if k != "ast"},
+                   "where": "recorded run rejected by Trace_Selectors"})
+        todo = [r for r in todo[acc + 1:] if trace_kind(r) != kind]
     ctx.evaluations += len(trace)
-    for r in accepted_all:
+    for r in accepted:
         ctx.distinct.add(core.canon(r))
-    if accepted_all:
-        ctx.sample({"recorded_trace_record": accepted_all[min(1, len(accepted_all) - 1)]})
-    return accepted_all
+    if accepted:
+        ctx.sample({"recorded_trace_record": accepted[min(1, len(accepted) - 1)]})
+    return accepted
 
 
 # ------------------------------------------------------------------ GroupBy
@@ -324,13 +345,16 @@ def replay_flows(ctx, recs, worst):
 
 
 def report_groupby(ctx, worst):
+    """One violation per kind (merged / split / ...), with the smallest witness."""
     for kind, (size, d) in sorted(worst.best.items()):
-        key = "GroupBy:%s:%s:%s|%s" % (kind, gm_text(d["G"], d["M"]), jkey(d["context_1"]).replace('"', ""),
-                                       jkey(d["context_2"]).replace('"', ""))
+        if "context_1" in d:
+            shrunk = "%s|%s" % (jkey(d["context_1"]).replace('"', ""), jkey(d["context_2"]).replace('"', ""))
+        else:
+            shrunk = "recorded run"
+        key = "GroupBy:%s:%s:%s" % (kind, gm_text(d["G"], d["M"]), shrunk)
         d = {k: v for k, v in d.items() if k not in ("G", "M")}
-        what = ("values whose contexts agree on every selected key path are put into different groups"
-                if kind == "split" else
-                "values whose contexts differ on a selected key path are put into the same group")
+        what = {"split": "values whose contexts agree on every selected key path are put into different groups",
+                "merged": "values whose contexts differ on a selected key path are put into the same group"}.get(kind, kind)
         ctx.violation(key, dict(d, what=what, pairs_of_this_kind=worst.count[kind]))
 
 
@@ -394,17 +418,34 @@ def record_groupby(ctx, rnd, n):
     return trace
 
 
-def classify_gb_factory(ctx):
-    """Which direction of 'exactly when' a rejected GroupBy record breaks is decided by the trace
-    spec itself: the record is re-validated with each half of the equivalence switched off."""
-    def classify(bad):
-        kinds = []
-        for mode, kind in (("nosplit", "merged"), ("nomerge", "split")):
-            acc = ctx.validate("Trace_GroupBy", "Trace_GroupBy.cfg", [bad], label="classify", env={"GB_MODE": mode})
-            if acc == 0:
-                kinds.append(kind)
-        return "GroupBy:%s:recorded run" % ("+".join(kinds) or "malformed groups")
-    return classify
+def check_gb_trace(ctx, trace, worst):
+    """Validate recorded GroupBy runs.  When a record is rejected, the batch is validated again with
+    only one part of the acceptance condition switched on (GB_MODE), so that the trace spec itself
+    says which half of 'exactly when' fails first and on which record."""
+    if not trace:
+        return []
+    acc = ctx.validate("Trace_GroupBy", "Trace_GroupBy.cfg", trace, label="trace")
+    ctx.traces += acc
+    ctx.evaluations += len(trace)
+    for r in trace[:acc]:
+        ctx.distinct.add(core.canon(r))
+    ctx.sample({"recorded_trace_record": trace[min(1, len(trace) - 1)]})
+    if acc < len(trace):
+        found = False
+        for mode, kind in (("shape", "groups are not an order-preserving partition"), ("merged", "merged"),
+                           ("split", "split")):
+            a = ctx.validate("Trace_GroupBy", "Trace_GroupBy.cfg", trace, label="classify", env={"GB_MODE": mode})
+            if a < len(trace):
+                found = True
+                r = trace[a]
+                cs = [sl.dec_ctx(c) for c in r["ctxs"]]
+                worst.add(kind, (10 ** 6 + len(jkey(cs)), jkey(r)),
+                          {"G": r["G"], "M": r["M"], "group_by": [sl.dotted(p) for p in r["G"]],
+                           "merge": [sl.dotted(p) for p in r["M"]], "contexts": cs, "groups": r["groups"],
+                           "where": "recorded run rejected by Trace_GroupBy", "index": a})
+        if not found:
+            raise core.MachineryError("Trace_GroupBy rejects record %d but none of its parts does" % acc)
+    return trace[:acc]
 
 
 def run(ctx):
@@ -418,9 +459,10 @@ def run(ctx):
                "(the documentation does not say whether they must swallow its exception)")
     # ---- design level
     ctx.mc("Selectors", "Selectors_%s.cfg" % tag, coverage=True, must_cover=SEL_ACTIONS)
-    ctx.mc("Selectors", "Selectors_filter_%s.cfg" % tag, coverage=True,
-           must_cover=("FilterPull", "FilterEnd", "FilterDecide"))
     if ctx.thorough:
+        # (in the quick tier the Filter universe is checked once, by the export run below)
+        ctx.mc("Selectors", "Selectors_filter_thorough.cfg", coverage=True,
+               must_cover=("FilterPull", "FilterEnd", "FilterDecide"))
         ctx.mc("Selectors", "Selectors_thorough3.cfg", coverage=True, must_cover=SEL_ACTIONS)
     ctx.mc("GroupBy", "GroupBy_%s.cfg" % tag, coverage=True, must_cover=("FillOld", "FillNew"))
     ctx.mc("GroupBy", "GroupBy_rel_%s.cfg" % tag)
@@ -435,9 +477,8 @@ def run(ctx):
     if ctx.thorough:
         recs3 = ctx.export("Selectors", "Selectors_thorough3_export.cfg", min_records=1000)
         replay_vectors(ctx, recs3, vals, worst)
-    report_selector(ctx, worst, "exported universe")
     frecs = ctx.export("Selectors", "Selectors_filter_%s_export.cfg" % tag, min_records=500)
-    replay_filters(ctx, frecs)
+    replay_filters(ctx, frecs, worst)
     ctx.sample({"spec_behaviour_filter": frecs[len(frecs) // 2]})
     # ---- spec -> code: GroupBy
     pairs, rejected = accepted_pairs(ctx)
@@ -453,30 +494,17 @@ def run(ctx):
     ctx.sample({"spec_behaviour_groupby": {k: crecs[len(crecs) // 2][k] for k in ("G", "M", "cls")}})
     flrecs = ctx.export("GroupBy", "GroupBy_flow_%s_export.cfg" % tag, env={"GM_FILE": gmfile}, min_records=1000)
     replay_flows(ctx, flrecs, gworst)
-    report_groupby(ctx, gworst)
     # ---- code -> spec
-    strace = record_selectors(ctx, rnd, 12000 if ctx.thorough else 2500)
-
-    def sel_sig(r):
-        return (r["op"], r.get("res"), r.get("exc"))
-    acc_s = check_trace(ctx, "Trace_Selectors", strace,
-                        lambda r: "Selector:recorded %s:%s:%s" % (
-                            r["op"], ("raised " + r["exc"]) if r.get("exc") else "result %s" % r.get("res", r.get("raised")),
-                            sl.render(r["ast"])),
-                        lambda a, b: sel_sig(a) == sel_sig(b) and a["op"] == "sel")
-    ctx.binding_demo("Trace_Selectors", "Trace_Selectors.cfg", acc_s,
-                     lambda r: dict(r, res={"T": "F", "F": "T", "E": "F"}[r["res"]]) if r["op"] == "sel" else None)
+    strace = record_selectors(ctx, rnd, 12000 if ctx.thorough else 2500, worst)
+    check_sel_trace(ctx, strace, worst)
+    report_selector(ctx, worst)
+    sdemo = [{"op": "sel", "ast": r["ast"], "val": vals[j], "res": r["res"][j], "exc": ""}
+             for j, r in enumerate(recs[len(recs) // 2:len(recs) // 2 + 8])]
+    ctx.binding_demo("Trace_Selectors", "Trace_Selectors.cfg", sdemo,
+                     lambda r: dict(r, res={"T": "F", "F": "T", "E": "F"}[r["res"]]))
     gtrace = record_groupby(ctx, rnd, 6000 if ctx.thorough else 1200)
-    classify = classify_gb_factory(ctx)
-    memo = {}
-
-    def classify_memo(r):
-        k = jkey(r)
-        if k not in memo:
-            memo[k] = classify(r)
-        return memo[k]
-    acc_g = check_trace(ctx, "Trace_GroupBy", gtrace, classify_memo,
-                        lambda a, b: classify_memo(a) == classify_memo(b), max_rounds=4)
+    check_gb_trace(ctx, gtrace, gworst)
+    report_groupby(ctx, gworst)
 
     def corrupt_groups(r):
         if len(r["groups"]) < 2:
@@ -484,7 +512,9 @@ def run(ctx):
         g = [list(x) for x in r["groups"]]
         g[1] = sorted(g[1] + [g[0].pop()])
         return dict(r, groups=[x for x in g if x])
-    ctx.binding_demo("Trace_GroupBy", "Trace_GroupBy.cfg", acc_g, corrupt_groups)
+    # the demonstration uses behaviours of the specification itself, so it does not depend on the tree under test
+    demo = [{"G": r["G"], "M": r["M"], "ctxs": r["flow"], "groups": r["groups"]} for r in flrecs[-60:]]
+    ctx.binding_demo("Trace_GroupBy", "Trace_GroupBy.cfg", demo, corrupt_groups)
     return ctx.finish(
         rule="S2C: every specification of the exported universe (depth <= 2 quick / <= 3 thorough over strings, classes, "
              "total and raising callables, lists, tuples, Selector/Not/And/Or/SelectContext objects, both "
